@@ -30,7 +30,7 @@ def execute(ob):
     xs = f"{ob['kind']}_{flav}"
     line = dict(oid=ob["oid"], kind=ob["kind"], proj=ob["proj"], pt=pt, coeffs=ob["coeffs"], atom=ob["atom"], outcome="OK",
                 keyset_ok=True, nkeys=0, resid_milli=0, kinematics_ok=True, note="", doc_resid_milli=0)
-    th = cards.theory(PTO=1, PTODIS=1, FNS=fns, NfFF=3, mc=1.4, mb=4.5, mt=170.0, MP=M, MW=math.sqrt(mw2), GF=GF, TMC=tmc, Q0=1.0)
+    th = cards.theory(PTO=ob.get("pto", 1), PTODIS=ob.get("pto", 1), FNS=fns, NfFF=3, mc=1.4, mb=4.5, mt=170.0, MP=M, MW=math.sqrt(mw2), GF=GF, TMC=tmc, Q0=1.0)
     kin = dict(x=x, Q2=q2, y=y)
     obsd = {xs: [dict(kin)]}
     coeffs = [float(common.frac(c)) * ATOMS[ob["atom"]] for c in ob["coeffs"]]
@@ -94,6 +94,14 @@ def run(ctx):
             oo = dict(o, flav=flav, tmc=tmc, fns=fns)
             oo["oid"] = common.oid_of("C11", dict(kind=o["kind"], proj=o["proj"], pt=o["pt"], flav=flav, tmc=tmc, fns=fns))
             todo.append(oo)
+        # leading order: the longitudinal structure function is NOT zero there with massive quarks or target-mass corrections
+        for flav, tmc, fns in ([("total", 1, "ZM-VFNS"), ("total", 0, "FFNS")] if q else
+                               [("total", 1, "ZM-VFNS"), ("total", 3, "ZM-VFNS"), ("total", 0, "FFNS"), ("charm", 0, "FFNS"), ("total", 0, "ZM-VFNS")]):
+            if o["kind"] == "g5" and tmc != 0:
+                continue
+            oo = dict(o, flav=flav, tmc=tmc, fns=fns, pto=0)
+            oo["oid"] = common.oid_of("C11", dict(kind=o["kind"], proj=o["proj"], pt=o["pt"], flav=flav, tmc=tmc, fns=fns, pto=0))
+            todo.append(oo)
     lines = ctx.pmap(execute, todo, chunksize=2)
     for ln in lines:
         ctx.count(1, nontrivial_key=ln["oid"] if ln["nkeys"] else None)
@@ -108,7 +116,7 @@ def run(ctx):
     by = {ln["oid"]: (o, ln) for o, ln in zip(todo, lines)}
     for oid, clause in bad.items():
         o, ln = by[oid]
-        key = f"{o['kind']}:{o['proj']}:{o['flav']}:tmc{o['tmc']}:{o['fns']}:x{o['pt']['x'][0]}/{o['pt']['x'][1]}:{clause}"
+        key = f"{o['kind']}:{o['proj']}:{o['flav']}:tmc{o['tmc']}:{o['fns']}{':LO' if o.get('pto') == 0 else ''}:x{o['pt']['x'][0]}/{o['pt']['x'][1]}:{clause}"
         ctx.violation(key, f"{o['kind']}_{o['flav']} (projectile {o['proj']}, TMC={o['tmc']}, {o['fns']}): {clause} {ln['note']}",
                       dict(kind="C11", obligation=o))
     # the arithmetic the combination is carried out with (Result.tla)
